@@ -13,6 +13,7 @@ import sys
 # fresh files, the source text is executed, and everything observable is sent back as one JSON line.
 # (kept above the package-relative imports so that the file can be run as a script)
 def _worker_main(root):
+    import select
     import shutil
     import threading
     import time
@@ -74,11 +75,8 @@ def _worker_main(root):
     XSH.aliases["ta"] = ta
     XSH.aliases["ua"] = ua
     execer = XSH.execer
-    n = 0
-    for line in sys.stdin:
-        cell = json.loads(line)
-        n += 1
-        d = os.path.join(root, f"c{n}")
+
+    def run_cell(cell, d):
         os.mkdir(d)
         os.chdir(d)
         for fn, content in cell.get("files", {}).items():
@@ -92,8 +90,6 @@ def _worker_main(root):
         env["XONSH_SUBPROC_CAPTURED_PRINT_STDERR"] = cell.get("printerr", False)
         sys.stdout.flush()
         sys.stderr.flush()
-        before = set(threading.enumerate())
-        save = [os.dup(0), os.dup(1), os.dup(2)]
         f0 = os.open("t0", os.O_RDONLY)
         f1 = os.open("t1", os.O_WRONLY | os.O_CREAT | os.O_APPEND)
         f2 = os.open("t2", os.O_WRONLY | os.O_CREAT | os.O_APPEND)
@@ -105,33 +101,25 @@ def _worker_main(root):
         r = None
         stuck = False
         try:
-            try:
-                execer.exec(cell["src"], glbs=g, locs=None, mode="exec", filename="<c07>")
-                r = g.get("r")
-                if r is not None and not isinstance(r, str):
-                    r.end()
-                    r = {"out": r.out, "err": r.err}
-            except BaseException as e:  # noqa: BLE001
-                exc = [type(e).__name__, str(e)[:300]]
-                r = None
-            # callable-alias threads may still be writing
-            deadline = time.time() + 3
-            for t in threading.enumerate():
-                if t not in before and isinstance(t, ProcProxyThread):
-                    t.join(max(0.0, deadline - time.time()))
-                    stuck = stuck or t.is_alive()
-            try:
-                sys.stdout.flush()
-                sys.stderr.flush()
-            except Exception:  # noqa: BLE001
-                pass
-        finally:
-            for i in range(3):
-                os.dup2(save[i], i)
-                os.close(save[i])
-            os.close(f0)
-            os.close(f1)
-            os.close(f2)
+            execer.exec(cell["src"], glbs=g, locs=None, mode="exec", filename="<c07>")
+            r = g.get("r")
+            if r is not None and not isinstance(r, str):
+                r.end()
+                r = {"out": r.out, "err": r.err}
+        except BaseException as e:  # noqa: BLE001
+            exc = [type(e).__name__, str(e)[:300]]
+            r = None
+        # callable-alias threads may still be writing (or be blocked for good on a pipe nobody closes)
+        deadline = time.time() + 2.5
+        for t in threading.enumerate():
+            if isinstance(t, ProcProxyThread):
+                t.join(max(0.0, deadline - time.time()))
+                stuck = stuck or t.is_alive()
+        try:
+            sys.stdout.flush()
+            sys.stderr.flush()
+        except Exception:  # noqa: BLE001
+            pass
         obs = {}
         for fn in sorted(os.listdir(d)):
             if fn == "t0":
@@ -141,12 +129,70 @@ def _worker_main(root):
                 continue
             with open(p, errors="replace") as f:
                 obs[fn] = f.read()
-        os.chdir(root)
+        return {"exc": exc, "r": r, "files": obs, "stuck": stuck}
+
+    # every cell runs in a FORKED copy of this warmed-up interpreter: no state (jobs, leaked pipes, blocked threads) is carried
+    # from one cell to the next, and a cell that hangs is killed without losing the interpreter
+    n = 0
+    for line in sys.stdin:
+        cell = json.loads(line)
+        n += 1
+        d = os.path.join(root, f"c{n}")
+        pr, pw = os.pipe()
+        pid = os.fork()
+        if pid == 0:
+            code = 0
+            try:
+                os.close(pr)
+                os.setpgid(0, 0)
+                out = run_cell(cell, d)
+                with os.fdopen(pw, "w") as f:
+                    f.write(json.dumps(out))
+            except BaseException as e:  # noqa: BLE001
+                code = 1
+                try:
+                    os.write(pw, json.dumps({"died": True, "why": f"{type(e).__name__}: {e}"[:300]}).encode())
+                except OSError:
+                    pass
+            finally:
+                os._exit(code)
+        os.close(pw)
+        chunks = []
+        deadline = time.time() + float(cell.get("timeout", 20))
+        hang = False
+        while True:
+            left = deadline - time.time()
+            if left <= 0:
+                hang = True
+                break
+            rd, _, _ = select.select([pr], [], [], left)
+            if rd:
+                b = os.read(pr, 1 << 16)
+                if not b:
+                    break
+                chunks.append(b)
+        os.close(pr)
+        if hang:
+            for sig in (15, 9):
+                try:
+                    os.killpg(pid, sig)
+                except OSError:
+                    pass
+                time.sleep(0.05)
+        try:
+            os.waitpid(pid, 0)
+        except OSError:
+            pass
+        # stage processes of a cell that went wrong may linger in their own groups; they hold nothing of ours
         shutil.rmtree(d, ignore_errors=True)
-        res_out.write(json.dumps({"exc": exc, "r": r, "files": obs, "stuck": stuck}) + "\n")
+        txt = b"".join(chunks).decode("utf-8", "replace")
+        if hang:
+            res_out.write(json.dumps({"hang": True}) + "\n")
+        elif not txt:
+            res_out.write(json.dumps({"died": True}) + "\n")
+        else:
+            res_out.write(txt + "\n")
         res_out.flush()
-        if stuck:
-            os._exit(0)  # a stage thread is blocked for good: this interpreter cannot be reused (the check starts a fresh one)
 
 
 if __name__ == "__main__":
@@ -305,7 +351,7 @@ class Pool:
                 w = self.ws[k]
                 res = w.recv()
                 out[busy.pop(k)] = res
-                if res.get("hang") or res.get("died") or res.get("stuck"):
+                if not w.alive():
                     w.close()
                     self.ws[k] = Worker()
         return out
